@@ -101,6 +101,8 @@ type Universe struct {
 	IDs   []int `json:"ids"`   // component index -> raw ID the type is registered on
 	Cap   int   `json:"cap"`   // CapacityIncrement
 	RCap  int   `json:"rcap"`  // RelationCapacityIncrement (0 = same)
+	// FullRes: the resource registry is filled to the limit (filler resource types after the model's).
+	FullRes bool `json:"fullres,omitempty"`
 	// Salt != 0: the component types are wrapped into fresh struct types named after the salt.
 	Salt   int `json:"salt,omitempty"`
 	salted []CompSpec
